@@ -38,7 +38,7 @@ const (
 )
 
 func TestMain(m *testing.M) {
-	vlib.Rule("C22: one LogBuffer per case (flush interval 1 h so only the harness causes rotations; flushFn blocks on a harness gate and captures the flushed bytes as the 'disk'). A rapid-generated schedule of steps runs on one goroutine: Append(timestamp gap in {+1ns, same, -5ns (clamped), small, exactly the interval, > interval (forces rotation)}, payload 10 B..1 MiB and occasionally > 4 MiB), ReleaseOneFlush (let the oldest queued flush complete and become visible), StartReader(start = before all / exactly an event's timestamp / 1 ns before or after one / in the future), ReaderStep. A reader mirrors SubscribeLocalMetadata: read 'disk' (released flushes, ts > last) then LoopProcessLogData until it would wait or is told to resume from disk. After every delivery the reader's sequence must be a prefix of 'all appended events with ts > start, in order' (so duplicates, reordering, gaps and torn payloads are detected at once); at quiescence (all flushes released, readers stepped to a fixpoint) it must be the complete list, and the concatenated flushes must be exactly the appended events. Non-trivial = at some reader step >= 2 rotations had happened, a flush was still pending and that reader was positioned before the end of a rotated-out buffer. Distinct = distinct written-out schedule. TestRace (thorough, -race): appender, flusher and 3 readers as real goroutines.")
+	vlib.Rule("C22: one LogBuffer per case (flush interval 1 h so only the harness causes rotations; flushFn blocks on a harness gate and captures the flushed bytes as the 'disk'). A rapid-generated schedule of steps runs on one goroutine: Append(timestamp gap in {+1ns, same, -5ns (clamped), small, exactly the interval, > interval (forces rotation)}, payload 10 B..1 MiB and occasionally > 4 MiB), ReleaseOneFlush (let the oldest queued flush complete and become visible), StartReader(start = before all / exactly an event's timestamp / 1 ns before or after one / in the future), ReaderStep. A reader mirrors SubscribeLocalMetadata: read 'disk' (released flushes, ts > last) then LoopProcessLogData until it would wait or is told to resume from disk. After every delivery the reader's sequence must be a prefix of 'all appended events with ts > start, in order' (so duplicates, reordering, gaps and torn payloads are detected at once); at quiescence (all flushes released, readers stepped to a fixpoint) it must be the complete list, and the concatenated flushes must be exactly the appended events. Flushes may lag arbitrarily far behind the writer (their buffer evicted from the sealed buffers and its array reused, class flush-completes-after-its-buffer-was-recycled); what a flush hands to flushFn is parsed when the harness lets it complete. Non-trivial = at some reader step >= 2 rotations had happened, a flush was still pending and that reader was positioned before the end of a rotated-out buffer. Distinct = distinct written-out schedule. TestRace (thorough, -race): appender, flusher and 3 readers as real goroutines.")
 	vlib.Assume("C22: 'disk' is the captured flush stream read back in order with the ts > last filter (the persisted-log reader ReadPersistedLogBuffer itself is not exercised). The effective timestamp of an event is the one the buffer assigns (clamped to last+1). The rotation model of the harness (used only to classify cases and to steer around listed findings) is cross-checked against the observed flushes; a disagreement is reported as INCONCLUSIVE. Timer-driven flushes (loopInterval) are not exercised.")
 	// belt and braces next to dispose(): the collector works harder instead of letting a shard grow
 	debug.SetMemoryLimit(1200 << 20)
@@ -147,10 +147,12 @@ type model struct {
 	flushes             []flushRec
 	released            int // flushes[0:released] have completed
 	rotBySize, rotByGap int
+	evictedFlush        int // newest flush whose buffer has left the sealed buffers (its array is being reused), -1 = none
+	lateFlushes         int // flushes that completed only after their buffer's array had been recycled
 }
 
 func newModel() *model {
-	m := &model{curFirst: -1, caps: map[int]int{}, aliasBug: recycledArrayIsSealed0()}
+	m := &model{curFirst: -1, evictedFlush: -1, caps: map[int]int{}, aliasBug: recycledArrayIsSealed0()}
 	for i := range m.sealed {
 		m.sealed[i] = mbuf{arr: m.newArr(log_buffer.BufferSize), first: -1, last: -1, flush: -1}
 	}
@@ -198,6 +200,9 @@ func (m *model) append(events []event, e event) (rotated bool) {
 		}
 		m.flushes = append(m.flushes, flushRec{first: m.curFirst, last: e.id - 1})
 		old0, old1 := m.sealed[0].arr, m.sealed[1].arr
+		if m.sealed[0].flush >= 0 {
+			m.evictedFlush = m.sealed[0].flush
+		}
 		copy(m.sealed[:], m.sealed[1:])
 		m.sealed[len(m.sealed)-1] = mbuf{arr: m.curArr, used: m.pos, first: m.curFirst, last: e.id - 1, flush: len(m.flushes) - 1}
 		if m.aliasBug {
@@ -230,7 +235,7 @@ var (
 func recycledArrayIsSealed0() bool {
 	aliasOnce.Do(func() {
 		r := &rig{gate: make(chan struct{}, 1024), acks: make(chan int, 1024)}
-		r.m = &model{curFirst: -1, caps: map[int]int{}}
+		r.m = &model{curFirst: -1, evictedFlush: -1, caps: map[int]int{}}
 		r.attach()
 		defer r.dispose()
 		for i := 0; i < 4; i++ { // e1, e2, e3 each seal the previous buffer: 3 rotations
@@ -401,6 +406,9 @@ func (r *rig) releaseOne(t fataler) bool {
 	case <-time.After(5 * time.Minute):
 		// not a verdict about the buffer: the harness' rotation model expected a queued flush
 		t.Fatalf("INCONCLUSIVE: harness rotation model expects queued flush #%d but flushFn was not called\n%s", r.m.released, r.history())
+	}
+	if r.m.evictedFlush >= r.m.released {
+		r.m.lateFlushes++
 	}
 	r.m.released++
 	r.awaitVisible(r.events[f.last].ts)
@@ -683,37 +691,47 @@ func (r *rig) finish(t fataler, shutdown bool) {
 	}
 }
 
-// steerAroundKnown is called before an append. For the listed findings it
-// releases queued flushes so that the failing configuration is never built:
-//   - keyAlias: after the rotation the oldest retained sealed buffer shares its
-//     array with the new current buffer; excluded = that buffer still unflushed.
-//   - keyGap:   the rotation evicts a sealed buffer whose flush has not completed.
+// steerAroundKnown is called before an append. For the listed finding keyAlias
+// (after the rotation the oldest retained sealed buffer shares its array with
+// the new current buffer) it releases queued flushes so that this buffer is
+// never still unflushed.
 func (r *rig) steerAroundKnown(t fataler, ts int64, enc int) {
 	rot, _ := r.m.willRotate(r.events, ts, enc)
-	if !rot {
+	if !rot || !vlib.Known(keyAlias) || r.m.sealed[1].flush < 0 {
 		return
 	}
-	// flush index that must be complete before this rotation
-	need := -1
-	if vlib.Known(keyGap) && r.m.sealed[0].flush >= 0 {
-		need = r.m.sealed[0].flush
-	}
-	if vlib.Known(keyAlias) && r.m.sealed[1].flush >= 0 {
-		need = r.m.sealed[1].flush
-	}
+	need := r.m.sealed[1].flush
 	did := false
 	for need >= r.m.released {
 		r.releaseOne(t)
 		did = true
 	}
 	if did {
-		if vlib.Known(keyAlias) {
-			vlib.Excluded(keyAlias)
-		} else {
-			vlib.Excluded(keyGap)
-		}
+		vlib.Excluded(keyAlias)
 		r.logf("  (harness released flushes up to #%d before the next append: listed finding)", need)
 	}
+}
+
+// steerReaderAroundGap is called before a reader step. Listed finding keyGap: a
+// reader that asks the buffer for events after lastReadTime while a buffer
+// holding such events has been evicted and its flush has not completed is served
+// the next buffer from memory and skips the evicted events. Exactly that call is
+// excluded: the lagging flushes are completed first when (and only when) the
+// stepping reader is positioned before the end of an evicted, unflushed buffer.
+// Flushes may otherwise lag arbitrarily far behind the writer.
+func (r *rig) steerReaderAroundGap(t fataler, rd *reader) {
+	if !vlib.Known(keyGap) || r.m.evictedFlush < r.m.released {
+		return
+	}
+	need := r.m.evictedFlush
+	if rd.last.UnixNano() >= r.events[r.m.flushes[need].last].ts {
+		return
+	}
+	for need >= r.m.released {
+		r.releaseOne(t)
+	}
+	vlib.Excluded(keyGap)
+	r.logf("  (harness completed flushes up to #%d before this reader step: listed finding %s)", need, keyGap)
 }
 
 // ---------------------------------------------------------------- generated schedules
@@ -851,6 +869,7 @@ func TestPropSchedule(t *testing.T) {
 						st.nontrivial = true
 					}
 				}
+				r.steerReaderAroundGap(t, rd)
 				d0, m0 := rd.fromDisk, rd.fromMem
 				n, err := rd.guardedStep(r)
 				r.logf("ReaderStep r%d -> %d deliveries (%d disk, %d memory), now at %s, %s", rd.id, n, rd.fromDisk-d0, rd.fromMem-m0, rel(rd.last.UnixNano()),
@@ -861,6 +880,7 @@ func TestPropSchedule(t *testing.T) {
 			}
 		}
 		r.finish(t, true)
+		lateFlushes := r.m.lateFlushes
 		for _, rd := range r.readers {
 			st.diskReads += rd.fromDisk
 			st.resumes += rd.resumes
@@ -880,6 +900,7 @@ func TestPropSchedule(t *testing.T) {
 		add(st.diskReads > 0, "delivered-from-disk")
 		add(st.resumes > 0, "resume-from-disk")
 		add(st.evictUnflushed > 0, "evicted-unflushed-buffer")
+		add(lateFlushes > 0, "flush-completes-after-its-buffer-was-recycled")
 		add(st.aliasUnflushed > 0, "oldest-sealed-unflushed-after-rotation")
 		vlib.Case(r.history(), st.nontrivial, cls...)
 	})
